@@ -632,6 +632,10 @@ def check_orphan_pf(case, rec):
             warnings.simplefilter("always")
             simu._Solver_Solve_problemType(PT.damage)
         sing = [w for w in wlist if "singular" in str(w.message).lower() or "MatrixRank" in type(w.message).__name__]
+        if sing and orph.size == 0:
+            # the damage problem is singular on the mesh itself (AT1 with no positive energy anywhere: a pure Laplacian):
+            # nothing to do with orphan nodes, the comparison decides nothing
+            raise Inconclusive("the damage problem is singular without any orphan node")
         rec.require(not sing, "singular_warning", f"damage problem with {orph.size} orphan nodes: singular-matrix warning", **sig)
         out.append((X, np.asarray(simu.damage, float).copy(), orph))
     (X0, d0, _), (X1, d1, orph) = out
